@@ -49,6 +49,24 @@ var constCmp = map[action]token.Token{
 	aGreaterEqual: token.GEQ,
 }
 
+// constBool returns the value of a boolean constant operand.
+func constBool(n *node) (b, ok bool) {
+	v := n.rval
+	if !v.IsValid() {
+		return false, false
+	}
+	if isConstantValue(v.Type()) {
+		if c := vConstantValue(v); c.Kind() == constant.Bool {
+			return constant.BoolVal(c), true
+		}
+		return false, false
+	}
+	if v.Kind() == reflect.Bool {
+		return v.Bool(), true
+	}
+	return false, false
+}
+
 // compareConst folds the comparison of two untyped constant operands.
 func compareConst(n *node) {
 	tok, ok := constCmp[n.action]
@@ -1834,6 +1852,12 @@ func (interp *Interpreter) cfg(root *node, sc *scope, importPath, pkgName string
 			if n.start.action == aNop {
 				n.start.gen = branch
 			}
+			if b0, ok0 := constBool(n.child[0]); ok0 {
+				if b1, ok1 := constBool(n.child[1]); ok1 {
+					n.rval = reflect.ValueOf(b0 && b1) // Both operands are constants: so is the result.
+					n.gen = nop
+				}
+			}
 
 		case lorExpr:
 			if isBlank(n.child[0]) || isBlank(n.child[1]) {
@@ -1848,6 +1872,12 @@ func (interp *Interpreter) cfg(root *node, sc *scope, importPath, pkgName string
 			n.findex = sc.add(n.typ)
 			if n.start.action == aNop {
 				n.start.gen = branch
+			}
+			if b0, ok0 := constBool(n.child[0]); ok0 {
+				if b1, ok1 := constBool(n.child[1]); ok1 {
+					n.rval = reflect.ValueOf(b0 || b1) // Both operands are constants: so is the result.
+					n.gen = nop
+				}
 			}
 
 		case parenExpr:
